@@ -17,7 +17,8 @@ RULE = ("generated: for every supported Type IIS geometry (one enzyme per distin
         "inside a site, spacer, overhang or at the ends of the target), argument order permuted; registry: chains sampled from the "
         "overhang graph of each embedded registry (every vector; a generated GGAG/CGCT BsaI vector for Plant), expected product from "
         "cuts() on the real plasmids. Non-trivial = judged complete chain whose product was returned and compared; distinct = "
-        "distinct (enzyme, input sequences, argument order).")
+        "distinct (enzyme, input sequences, argument order)."
+        " Second session: in one generated case in five every module (now and then the vector too) is called 'assembly', as re-used products are.")
 ASSUMPTIONS = [
     "supported enzyme = 5' overhang, non-palindromic, single-cut, unambiguous 5-7 nt site, cut downstream (DESIGN section 3)",
     "each plasmid carries exactly one forward and one reverse site; module targets >= 2 nt, vector backbones >= 2 nt",
